@@ -71,6 +71,13 @@ class GetService(DPWSPortTypeBase):
             # read the version inside the same critical section as the states: both belong to one mdib version
             mdib_version_group = self._mdib.mdib_version_group
 
+        # repeated or overlapping handle references must not produce double entries
+        unique_state_containers = []
+        for state_container in state_containers:
+            if not any(state_container is tmp for tmp in unique_state_containers):
+                unique_state_containers.append(state_container)
+        state_containers = unique_state_containers
+
         factory = self._sdc_device.msg_factory
         response = data_model.msg_types.GetMdStateResponse()
         response.MdState.State.extend(state_containers)
